@@ -1516,12 +1516,33 @@ func specialC19(seed int64, thorough bool) *Special {
 			o.NFields, o.NVocab = 2, 4
 		}
 		b := g.Batch(o)
-		file, _, err := buildBytes(Current, b, g.ChunkMode())
+		cm := g.ChunkMode()
+		crafted := s%5 == 2
+		if crafted {
+			// in every run: a term with locations in every document, four or more chunks of three
+			// documents, read by an iterator that lives across the fault (a failure between the
+			// freq/norm chunk and the location chunk of a later chunk must not desynchronise it)
+			nd = 10 + g.R.Intn(6)
+			b = nil
+			for d := 0; d < nd; d++ {
+				body := Field{N: "body", DV: true}
+				for _, t := range []string{"a", "b"} {
+					if t == "a" || g.R.Intn(2) == 0 {
+						fq := 1 + g.R.Intn(2)
+						body.Terms = append(body.Terms, Term{T: []byte(t), Freq: fq, Locs: []Loc{{Pos: 1 + d, Start: d, End_: d + 1}}})
+						body.Len += fq
+					}
+				}
+				b = append(b, Doc{idField(fmt.Sprintf("c%d", d), true), body})
+			}
+			cm = 3
+		}
+		file, _, err := buildBytes(Current, b, cm)
 		if err != nil {
 			sp.failf(nil, "setup failed: %v", err)
 			continue
 		}
-		if g.R.Intn(2) == 0 { // a merged file (1-hit encodings)
+		if !crafted && g.R.Intn(2) == 0 { // a merged file (1-hit encodings)
 			seg, _ := Current.Load(segment.NewDataBytes(file))
 			file, _, err = mergeBytes(Current, []segment.Segment{seg}, []*roaring.Bitmap{nil}, g.ChunkMode())
 			if err != nil {
